@@ -71,6 +71,15 @@ def replay_encoder(fmt, m, E):
     enc = E.NMEA2000Encoder()
     msg = NMEA2000Message(PGN=pgn, id='x', source=src, destination=dst, priority=prio)
     bad = []
+    # the encoder has a history: it first sends messages that differ from the counterexample in one header field each
+    for (p2, s2, d2, r2) in ((pgn, src, dst, (prio + 1) % 8), (pgn, src, (dst + 1) % 256, prio), (pgn, (src + 1) % 256, dst, prio), (pgn ^ 0x100, src, dst, prio)):
+        try:
+            enc._call_encode_function = lambda mm: b'\x01\x02\x03'
+            enc._encode = lambda mm: [b'\x01\x02\x03']
+            m2 = NMEA2000Message(PGN=p2, id='x', source=s2, destination=d2, priority=r2)
+            getattr(enc, {'ebyte': 'encode_ebyte', 'usb': 'encode_usb', 'yd': 'encode_yacht_devices', 'actisense': 'encode_actisense'}[fmt])(m2)
+        except Exception:  # noqa
+            pass
     if fmt == 'actisense':
         for fr in fl:
             enc._call_encode_function = lambda mm, fr=fr: fr
@@ -173,7 +182,10 @@ def replay_roundtrip(fmt, m, E, D):
               'actisense': ('encode_actisense', 'decode_actisense_string')}[fmt]
     grid = [(int(m.get('msg.PGN', 59904)), int(m.get('msg.source', 1)), int(m.get('msg.destination', 255)), int(m.get('msg.priority', 3)))]
     grid += [(p, s_, d, pr) for p in (59904, 127250, 126720, 0x1EF00) for s_ in (0, 1, 35, 255) for d in (0, 5, 15, 16, 255) for pr in (0, 3, 7)]
-    for (pgn, src, dst, prio) in grid:
+    # two passes: a new encoder and decoder for every header, then one encoder and one decoder for the whole grid (the
+    # property holds for an object with any history of earlier calls)
+    shared = {}
+    for (pgn, src, dst, prio), fresh_objects in [(h, True) for h in grid] + [(h, False) for h in grid]:
         pdu1 = ((pgn >> 8) & 0xFF) < 240
         if not pdu1:
             dst = 255
@@ -182,10 +194,14 @@ def replay_roundtrip(fmt, m, E, D):
         for n in (8, 3, 1):
             data = bytes((17 * i + 3) & 0xFF for i in range(n))
             msg = NMEA2000Message(PGN=pgn, id='x', source=src, destination=dst, priority=prio)
-            enc = E.NMEA2000Encoder()
+            if fresh_objects or not shared:
+                enc, dec = E.NMEA2000Encoder(), D.NMEA2000Decoder()
+                if not fresh_objects:
+                    shared['objects'] = (enc, dec)
+            else:
+                enc, dec = shared['objects']
             enc._encode = lambda mm, data=data: [data]
             enc._call_encode_function = lambda mm, data=data: data[::-1]
-            dec = D.NMEA2000Decoder()
             calls = []
             dec._decode = lambda pgn_, prio_, src_, dst_, ts, can, raw, comb=False: calls.append((pgn_, prio_, src_, dst_, bytes(can)))
             try:
@@ -200,9 +216,37 @@ def replay_roundtrip(fmt, m, E, D):
                     getattr(dec, dn)(arg)
             except Exception as e:  # noqa
                 return {'confirmed': True, 'inputs': {'format': fmt, 'pgn': pgn, 'source': src, 'destination': dst, 'priority': prio, 'data': data.hex()},
-                        'observed': f'{type(e).__name__}: {e}', 'how': f'{en} then {dn} on the working tree'}
+                        'observed': f'{type(e).__name__}: {e}', 'how': f'{en} then {dn} on the working tree' + ('' if fresh_objects else ' (one encoder and one decoder reused over the header grid)')}
             want = (pgn, prio, src, dst, data[::-1] if fmt != 'actisense' else data[::-1])
             if len(calls) != 1 or calls[0][:4] != want[:4]:
                 return {'confirmed': True, 'inputs': {'format': fmt, 'pgn': pgn, 'source': src, 'destination': dst, 'priority': prio, 'data': data.hex(), 'packets': [bytes(q).hex() if isinstance(q, (bytes, bytearray)) else q for q in pk]},
-                        'observed': [list(c[:4]) for c in calls], 'expected': list(want[:4]), 'how': f'{en} then {dn} on the working tree (frame handed over by stubs of _encode / _decode)'}
+                        'observed': [list(c[:4]) for c in calls], 'expected': list(want[:4]), 'how': f'{en} then {dn} on the working tree (frame handed over by stubs of _encode / _decode)' + ('' if fresh_objects else '; one encoder and one decoder reused over the header grid')}
     return {'confirmed': False, 'inputs': {k: v for k, v in m.items() if k.startswith('msg.')}}
+
+
+def sample_models(fmt, variant):
+    """Boundary grid of counterexample-shaped inputs for the native search after a solver gave up (bounded)."""
+    out = []
+    for pgn in (59904, 60928, 126208, 126720, 127250, 130306, 0x1FF1A, 0x1EF00, 0x0EA00, 0x3FFFF):
+        for src in (0, 1, 35, 255):
+            for dst in (0, 5, 16, 255):
+                for prio in (0, 3, 7):
+                    pdu1 = ((pgn >> 8) & 0xFF) < 240
+                    p2 = (pgn & 0x3FF00) if pdu1 else pgn
+                    cid = build_id(p2, src, dst, prio)
+                    data = bytes((17 * i + 3 + src) & 0xFF for i in range(24))
+                    m = {'header_word': (src << 12) | (dst << 4) | prio, 'pgn': p2, 'can_id': cid, 'prio': prio, 'src': src, 'dst': dst, 'length': 8,
+                         'msg.PGN': p2, 'msg.source': src, 'msg.destination': dst, 'msg.priority': prio, 'ts.seconds': 12, 'ts.millis': 5}
+                    for i, b in enumerate(data):
+                        m[f'data[{i}]'] = b
+                    if fmt == 'tcp':
+                        pk = bytes([0x88]) + cid.to_bytes(4, 'big') + data[:8]
+                    elif fmt == 'usb':
+                        body = bytes([0xAA, 0x55, 1, 1, 1]) + cid.to_bytes(4, 'little') + bytes([8]) + data[:8] + b'\x00'
+                        pk = body + bytes([sum(body[2:19]) & 0xFF])
+                    else:
+                        pk = b''
+                    for i, b in enumerate(pk):
+                        m[f'packet[{i}]'] = b
+                    out.append(m)
+    return out
